@@ -237,6 +237,26 @@ Definition voting_power_gen (opshare amount : Z) : outcome Z :=
   if 315 <? bitlen (opshare * amount) then Panic else Ok (opshare * amount).
 
 (* ------------------------------------------------------------------------------------------ *)
+(* 5c. a pending undelegation hit by several slashes, then its maturity in delegation EndBlock                    *)
+(*     x/operator/keeper/slash.go SlashFromUndelegation: slash = trunc(p * Amount) is clamped against what is left  *)
+(*     (ActualCompletedAmount); x/delegation/keeper/abci.go: for the native token sdk.NewCoin(denom, actual)       *)
+(*     panics on a negative amount, for other assets UpdateStakerAssetState returns an error (logged, skipped)     *)
+(* ------------------------------------------------------------------------------------------ *)
+Definition slash_undel (amount actual p : Z) : Z :=          (* p = proportion scaled by 10^18 *)
+  if actual =? 0 then 0
+  else let sa := (p * amount) / P in
+       if actual <=? sa then 0 else actual - sa.
+(* the completable amount after each of the slashes *)
+Fixpoint slash_undel_all (amount actual : Z) (ps : list Z) : list Z :=
+  match ps with
+  | [] => []
+  | p :: r => let a := slash_undel amount actual p in a :: slash_undel_all amount a r
+  end.
+Definition last_actual (amount : Z) (ps : list Z) : Z := last (slash_undel_all amount amount ps) amount.
+Definition complete_gen (native : bool) (actual : Z) : outcome Z :=
+  if actual <? 0 then (if native then Panic else Err) else Ok actual.
+
+(* ------------------------------------------------------------------------------------------ *)
 (* 6. block-level composition                                                                  *)
 (* ------------------------------------------------------------------------------------------ *)
 Record state := mkSt {
@@ -342,6 +362,9 @@ Inductive path :=
 | PAvsStat (group : list result) (known : bool)
 | PSubmit (present : bool) (siglen : Z) (window : bool)           (* window: still inside the response period *)
 | PAlloc (reward : Z) (apps : list (nat * Z))
+| PSlashUndel (native : bool) (amount : Z) (props : list Z) (actuals : list Z)
+    (* one pending undelegation, the proportions of the slashes that reached it (as stored in the slash records),
+       the ActualCompletedAmount observed after each slash; c_obs = delegation EndBlock at the maturity height *)
 | PVotingPower (opshare amount : Z)                                (* UpdateVotingPower of the dogfood AVS *)
 | PDelegEnd (n failing : nat)                                      (* delegation EndBlock, one matured record made to fail *)
 | PAbci (blocks : nat).                                            (* malformed-tx stream / plain blocks *)
@@ -370,6 +393,9 @@ Definition check_case (c : case) : option nat :=
     | PSubmit present l window =>
         rclass_eqb (if window then class_of (submit_gen DErr present l []) else RErr) (c_obs c)
     | PAlloc reward apps => rclass_eqb (class_of (alloc reward apps)) (c_obs c)
+    | PSlashUndel native amount ps actuals =>
+        zlist_eqb (slash_undel_all amount amount ps) actuals &&
+        rclass_eqb (match complete_gen native (last_actual amount ps) with Panic => RPanic | _ => ROk end) (c_obs c)
     | PVotingPower sh a => rclass_eqb (class_of (voting_power_gen sh a)) (c_obs c)
     | PDelegEnd n f => Nat.ltb f n && rclass_eqb (c_obs c) ROk    (* per-record errors are logged and skipped *)
     | PAbci _ => true
@@ -380,5 +406,11 @@ Definition check_case (c : case) : option nat :=
 Definition monitor_case (c : case) : option nat :=
   match c_obs c with
   | RPanic => Some 0%nat
-  | _ => if c_later_ok c then None else Some 1%nat
+  | _ => if negb (c_later_ok c) then Some 1%nat
+         else match c_path c with
+              | PSlashUndel _ _ _ actuals =>
+                  (* the guard of the maturity step: the completable amount of a pending record is never negative *)
+                  if forallb (fun a => 0 <=? a) actuals then None else Some 2%nat
+              | _ => None
+              end
   end.
